@@ -251,7 +251,10 @@ class RigidBody:
 
     def aabb(self):
         """The aabb of the rigidbody"""
-        return self.aabb_tree.get_root_aabb()
+        vertices_in_origin = transform_points(
+            np.ascontiguousarray(self.body2origin_), self.vertices_)
+        return np.array([np.min(vertices_in_origin, axis=0),
+                         np.max(vertices_in_origin, axis=0)]).T
 
     @property
     def aabbs(self):
